@@ -343,11 +343,15 @@ Proof.
   - (* probe *)
     split; auto. pose proof (lookup_rel g _ _ key Htab) as Hl.
     destruct (lookup key tab) as [rt|], (slookup key stab) as [srt|]; try contradiction.
-    + destruct Hl as (_ & _ & Hrd & Hi & Hc & _ & Hh). cbn [snd] in *.
+    + destruct Hl as (_ & Hsn & Hrd & Hi & Hc & _ & Hh). cbn [snd] in *.
+      assert (Hpat : rt_pattern rt = sr_pattern srt).
+      { unfold snapshot_of in Hsn. destruct (hostname rt), (path rt); try discriminate.
+        inversion Hsn. reflexivity. }
       rewrite Hrd, Hi, Hh. subst r. cbn [router_of g_noMethod g_autoOptions router0].
-      set (k := dispatch_kind _ _ _ _ p). unfold client_ip. rewrite Hc.
-      destruct k; cbn [router_of g_clientip router0]; reflexivity.
-    + subst r. unfold client_ip. cbn. destruct (last_sel g_sel_resolver g RNone); reflexivity.
+      set (k := dispatch_kind _ _ _ _ p). unfold view_of, clone, clone_with, client_ip. cbn [cx_route].
+      destruct k; cbn [option_map router_of g_clientip router0]; rewrite ?Hc, ?Hpat; reflexivity.
+    + subst r. unfold view_of, clone, clone_with, client_ip. cbn.
+      destruct (last_sel g_sel_resolver g RNone); reflexivity.
   - (* Annotation *)
     split; auto. pose proof (lookup_rel g _ _ key Htab) as Hl.
     destruct (lookup key tab) as [rt|], (slookup key stab) as [srt|]; try contradiction; auto.
@@ -490,12 +494,19 @@ Qed.
 Theorem clientip_selection_l chk r pats tab key rt p :
   lookup key tab = Some rt -> rt_handler rt = true ->
   let k := dispatch_kind (rt_ignore rt) (rt_redirect rt) (g_noMethod r) (g_autoOptions r) p in
-  run_op chk r pats tab (OProbe key p) =
-    (tab, ObsProbe k (res_cip (match k with KRoute => rt_clientip rt | _ => g_clientip r end))).
+  let v := match k with
+           | KRoute => (res_cip (rt_clientip rt), Some (rt_pattern rt))
+           | _ => (res_cip (g_clientip r), None)
+           end in
+  run_op chk r pats tab (OProbe key p) = (tab, ObsProbe k v v v (match k with KRoute => Some v | _ => None end)).
 Proof.
-  intros Hl Hh k. cbn [run_op]. rewrite Hl. fold k. unfold client_ip, res_cip. rewrite Hh.
-  destruct k; reflexivity.
+  intros Hl Hh k v. cbn [run_op]. rewrite Hl. fold k. unfold v, view_of, clone, clone_with, client_ip, res_cip. cbn [cx_route].
+  rewrite Hh. destruct k; reflexivity.
 Qed.
+
+(* copies of a context show what the context shows *)
+Theorem clone_preserves_view_l r c : view_of r (clone c) = view_of r c /\ view_of r (clone_with c) = view_of r c.
+Proof. split; reflexivity. Qed.
 
 (* ---- invalid options ---- *)
 Theorem invalid_global_options_rejected_l g :
